@@ -52,7 +52,8 @@ RULE = ('(1) exhaustive: every history of length L (quick 3, thorough 4) over th
         'identifying and one referential attribute, mixed-case kinds, names and type names, histories of up to 40 '
         'ops (new with positional/keyword mixes incl. referential keywords in any spelling, set, del of present, '
         'absent and referential attributes, reads, where_eq selections, relate/unrelate, serialize, '
-        'find) with an independently chosen spelling at every use, a third of the where_eq filters naming one attribute twice under '
+        'find) with an independently chosen spelling at every use, a fifth of the attribute names beginning with _ or __ (not of the '
+        'reserved form), a third of the where_eq filters naming one attribute twice under '
         'two spellings with different or equal values (also as a dict and on a plain instance set); (3) class lookup: exhaustively one lookup '
         '(find_metaclass / new / select_many / select_any) under each of the 4 spellings of a 2-letter kind BEFORE '
         'define_class under each spelling, then every lookup kind under every spelling after it, plus random '
@@ -189,6 +190,12 @@ def _random_case(r, maxlen, load=False):
         out, seen = [], set()
         while len(out) < n:
             nm = ident(1, 6)
+            if r.random() < 0.2:
+                # names that begin with one or two underscores are ordinary attribute names (only __x__ is reserved): every
+                # spelling of them addresses the one stored value like any other name
+                cand = r.choice(['_', '__']) + nm
+                if not _is_dunder(cand):
+                    nm = cand
             if nm.upper() in seen:
                 continue
             seen.add(nm.upper())
